@@ -460,8 +460,10 @@ func (p *Program) Explore(fn *ssa.Function, opts Opts) ([]*Path, error) {
 			fr.env[prm] = opts.Args[i]
 		} else if v := p.plumbedParam(fn, i); v != nil {
 			fr.env[prm] = v
-			if x, ok := it.valLookup(v.(*Expr).Name); ok {
-				fr.env[prm] = x // the rule's valuation of that field
+			if e, isE := v.(*Expr); isE {
+				if x, ok := it.valLookup(e.Name); ok {
+					fr.env[prm] = x // the rule's valuation of that field
+				}
 			}
 		}
 	}
@@ -497,13 +499,40 @@ func (p *Program) plumbedParam(fn *ssa.Function, idx int) AV {
 	if len(sites) == 0 {
 		return nil
 	}
+	// every call site passes the same constant (a hard-coded value that became a parameter)
+	var konst *ssa.Const
+	allConst := true
+	for _, cs := range sites {
+		args := cs.Instr.Common().Args
+		if idx >= len(args) {
+			return nil
+		}
+		c, ok := args[idx].(*ssa.Const)
+		if !ok || c.Value == nil || (konst != nil && !constant.Compare(konst.Value, token.EQL, c.Value)) {
+			allConst = false
+			break
+		}
+		konst = c
+	}
+	if allConst && konst != nil {
+		p.RenameNotes = append(p.RenameNotes, fmt.Sprintf("parameter %s of %s is new; every call site passes the constant %s, which it stands for", prm.Name(), name, konst.Value))
+		return &Const{V: konst.Value}
+	}
 	key := ""
 	for _, cs := range sites {
 		args := cs.Instr.Common().Args
 		if idx >= len(args) {
 			return nil
 		}
-		u, ok := args[idx].(*ssa.UnOp)
+		av := args[idx]
+		for {
+			if ct, ok := av.(*ssa.ChangeType); ok { // chan T handed over as <-chan T, a named type as its underlying type
+				av = ct.X
+				continue
+			}
+			break
+		}
+		u, ok := av.(*ssa.UnOp)
 		if !ok || u.Op != token.MUL {
 			return nil
 		}
@@ -524,8 +553,8 @@ func (p *Program) plumbedParam(fn *ssa.Function, idx int) AV {
 				}
 				k = joinField(k, fieldName(stt.Field(x.Field)))
 				return true
-			case *ssa.Parameter, *ssa.FreeVar:
-				return true
+			case *ssa.Parameter, *ssa.FreeVar, *ssa.Alloc:
+				return true // (an Alloc: the object under construction, e.g. c in newConn at the go statement)
 			case *ssa.UnOp:
 				// a pointer field on the way (c.msgWriter.flate): continue from the pointee's type
 				if x.Op == token.MUL {
